@@ -28,8 +28,10 @@ Inductive case :=
         (ls_fast ls_scan : list listener)
         (obs_fast obs_scan : list olistener * list osvc)
 (* PushContext.destinationRule(proxy namespace, service): the "from" names of every consolidated rule returned *)
+(* ... with the subset names (subset "sub<n>" belongs to rule n) and the owner of the top-level traffic
+   policy (0 = none) of the merged rule that is handed to the proxy *)
 | DRule (id : N) (m : mesh) (drs : list drule) (proxy_ns svc_ns svc_host : string)
-        (obs : list (list (string * N))).
+        (obs : list (list (string * N) * list N * N)).
 
 Definition case_id c :=
   match c with
@@ -67,6 +69,15 @@ Definition listeners_ok (m : mesh) svcs vss cfg (ls : list listener) (obs_ls : l
   list_eqb ol_eqb (map w_obs ws) obs_ls &&
   list_eqb o_eqb (scope_canon (collect_imported m (sort_services svcs) cfg (hint_of obs_scope) ws)) obs_scope.
 
+(* the merged rule: subsets in merge order (one per contributing rule), traffic policy of the first
+   contributing rule that has one (mergeDestinationRule: first wins) *)
+Definition dr_by_id (drs : list drule) (id : string * N) : option drule :=
+  find (fun d => vsid_eqb id (d_ns d, d_name d)) drs.
+Definition mdr_obs (drs : list drule) (x : mdr) : list (string * N) * list N * N :=
+  (md_from x, map snd (md_from x),
+   match find (fun id => match dr_by_id drs id with Some d => d_tp d | None => false end) (md_from x) with
+   | Some id => snd id | None => 0%N end).
+
 Definition model_ok (c : case) : bool :=
   match c with
   | HostAlg _ a b om os => Bool.eqb (matches a b) om && Bool.eqb (subset_of a b) os
@@ -88,7 +99,9 @@ Definition model_ok (c : case) : bool :=
       listeners_ok m svcs vss cfg lf (fst of_) (snd of_) &&
       listeners_ok m svcs vss cfg ls (fst os_) (snd os_)
   | DRule _ m drs p sn sh obs =>
-      list_eqb (list_eqb vsid_eqb) (map md_from (destination_rule m drs p sn sh)) obs
+      list_eqb (fun a b => list_eqb vsid_eqb (fst (fst a)) (fst (fst b)) &&
+                           list_eqb N.eqb (snd (fst a)) (snd (fst b)) && N.eqb (snd a) (snd b))
+               (map (mdr_obs drs) (destination_rule m drs p sn sh)) obs
   end.
 
 (* ---------------------------------------------------------------- property oracle on observed outputs *)
@@ -164,9 +177,13 @@ Definition prop_ok (c : case) : bool :=
       list_eqb o_eqb (snd of_) (snd os_)
   | DRule _ m drs p sn sh obs =>
       (* every rule that shapes the result is exported to the proxy namespace and covers the hostname *)
+      (* ... be it through the "from" list, a subset or the traffic policy (rule names are unique) *)
       negb (real_ns p) ||
-      forallb (forallb (fun id => existsb (fun d => vsid_eqb id (d_ns d, d_name d) &&
-                                                   dr_visible_spec m d p && subset_of sh (d_host d)) drs)) obs
+      let ok_name n := existsb (fun d => N.eqb n (d_name d) && dr_visible_spec m d p && subset_of sh (d_host d)) drs in
+      forallb (fun o =>
+        forallb (fun id => existsb (fun d => vsid_eqb id (d_ns d, d_name d) &&
+                                             dr_visible_spec m d p && subset_of sh (d_host d)) drs) (fst (fst o)) &&
+        forallb ok_name (snd (fst o)) && (N.eqb (snd o) 0 || ok_name (snd o))) obs
   end.
 
 Definition mismatches := check_all case_id model_ok prop_ok.
